@@ -26,6 +26,111 @@ def self_comparison_rule(F, r, module_prefixes, what):
     return ncmp
 
 
+# call sites where passing one value for two same-typed parameters is intended (callee suffix per enclosing function), with the reason
+DUP_OK = {
+    ("IndividualStorageFactory", "new_with_dedup"): "a GSOM node's elite population uses node_size both as capacity and as selection size",
+}
+DEGENERATE_BIN = ("Sub", "Div", "Rem", "BitXor", "SubWithOverflow", "SubUnchecked")
+
+
+def degenerate_sites(F, fn, fid, imp):
+    """(line, kind, text) for: a call that receives the same pure expression for two parameters of the same type; x - x, x / x, x % x, x ^ x"""
+    out = []
+    memo = {}
+    for bi, t in mir.calls(fn):
+        if t.get("x") or len(t["args"]) < 2:
+            continue
+        c = t["callee"] or ""
+        if c in mir.CMP_CALLS:
+            continue
+        last = c.split("::")[-1]
+        if c.startswith("core::ops::arith") and last in ("sub", "div", "rem") and len(t["args"]) == 2:
+            a, b = mir.expr(fn, t["args"][0], 0, memo, imp), mir.expr(fn, t["args"][1], 0, memo, imp)
+            if a == b and mir.expr_has_input(a) and not mir.expr_has_opaque(a):
+                out.append((t["ln"], "arith", f"`{last}` of a value with itself ({_show(a)})"))
+            continue
+        tys = t.get("argtys", [])
+        ex = [mir.expr(fn, a, 0, memo, imp) for a in t["args"]]
+        for i in range(len(ex)):
+            for j in range(i + 1, len(ex)):
+                if i < len(tys) and j < len(tys) and tys[i] == tys[j] and ex[i] == ex[j] and ex[i][0][0] != "const" and mir.expr_has_input(ex[i]) and not mir.expr_has_opaque(ex[i]):
+                    if any(k[0] in fid and c.endswith(k[1]) for k in DUP_OK):
+                        continue
+                    out.append((t["ln"], "dup", f"`{last}` receives the same value ({_show(ex[i])}) for parameters #{i + 1} and #{j + 1} of type `{tys[i][:50]}`"))
+    for bi, si, st in mir.stmts(fn):
+        rv = st["r"]
+        if rv["k"] == "bin" and rv.get("op") in DEGENERATE_BIN and not st.get("x"):
+            a, b = mir.expr(fn, rv["o"][0], 0, memo, imp), mir.expr(fn, rv["o"][1], 0, memo, imp)
+            if a == b and mir.expr_has_input(a) and not mir.expr_has_opaque(a):
+                out.append((st.get("ln"), "arith", f"`{rv['op']}` of a value with itself ({_show(a)})"))
+    return out
+
+
+def lints_rule(F, r, module_prefixes, what):
+    """self-comparison + duplicated argument + degenerate arithmetic over the bodies of the given modules (all exact: zero sites on the pinned tree
+    apart from the reasoned DUP_OK rows). Returns the number of sites scanned."""
+    imp = effects.impure_call(F)
+    nfn = ncmp = ncall = 0
+    for fid, fn in sorted(F.fns.items()):
+        if "::promoted[" in fid:
+            continue
+        root = F.root_of(fid)
+        mod = F.fns.get(root, fn)["module"]
+        if not mod.startswith(tuple(module_prefixes)):
+            continue
+        nfn += 1
+        ncmp += sum(1 for _, t in mir.calls(fn) if t["callee"] in mir.CMP_CALLS) + sum(1 for _, _, s in mir.stmts(fn) if s["r"]["k"] == "bin" and s["r"].get("op") in mir.CMP_BINOPS)
+        ncall += sum(1 for _, t in mir.calls(fn) if len(t["args"]) >= 2)
+        for ln, op, e in mir.self_comparisons(fn, imp):
+            r.fail(f"{util.short_fn(fid)}: {op}", f"both operands of this `{op}` are the same expression ({_show(e)}): the comparison is constant, so the {what} it implements "
+                   "is disabled", F.loc(fid, ln))
+        for ln, kind, txt in degenerate_sites(F, fn, fid, imp):
+            r.fail(f"{util.short_fn(fid)}: {kind}@{txt.split('`')[1]}", txt + f": a copy-paste / wrong-variable slip in the {what}", F.loc(fid, ln))
+    r.ok("sites scanned", f"{ncmp} comparisons and {ncall} multi-argument calls in {nfn} bodies: no value compared with, subtracted from, divided by or passed alongside itself")
+    return ncmp + ncall
+
+
+def anchor_modules(prop):
+    """module prefixes of the files a property is anchored in (properties.jsonl -> anchors.files)"""
+    import json
+    import os
+    path = os.path.join(os.path.dirname(os.path.dirname(os.path.dirname(os.path.abspath(__file__)))), "properties.jsonl")
+    mods = []
+    with open(path) as fh:
+        for line in fh:
+            d = json.loads(line)
+            if d["id"] != prop:
+                continue
+            for f in d.get("anchors", {}).get("files", []):
+                f = f.split(" ")[0].strip()
+                if "/src/" not in f and not f.endswith("/src"):
+                    continue
+                crate, rest = f.split("/src", 1)
+                crate = crate.split("/")[-1].replace("-", "_")
+                rest = rest.strip("/")
+                if rest.endswith(".rs"):
+                    rest = rest[:-3]
+                parts = [x for x in rest.split("/") if x]
+                if parts and parts[-1] in ("mod", "lib", "main"):
+                    parts = parts[:-1]
+                if not parts:
+                    continue       # a whole crate is not an anchor
+                mods.append("::".join([crate] + parts))
+    return sorted(set(mods))
+
+
+def anchored_lints(prop):
+    def rule(F, r):
+        mods = anchor_modules(prop)
+        if not mods:
+            r.skip()
+            return
+        n = lints_rule(F, r, mods, f"code {prop} is anchored in")
+        if n == 0:
+            r.fail("anchor modules", f"no comparison or call found in the anchor modules {mods[:4]} (renamed?)")
+    return rule
+
+
 def _show(e, depth=0):
     root, path = e
     if root[0] == "arg":
